@@ -280,6 +280,28 @@ def run(repo, chk):
         ok = len(shape) == len(want) and all(w is None or w == s for w, s in zip(want, shape))
         chk.expect(ok, 'C08.L2', 'gen_block[LoopBlock]::shape', f'loop template is {shape}', GEN)
 
+    # a release whose instructions are thrown away (`list(self.pop(b))`) frees nothing at run time: it is only right where the
+    # block's clean-up is dead code anyway - the CodeBlock arm of gen_block, decided by the cleanup condition (L3 / C16.E6)
+    rel_ = gf.releasers()
+    n_sil = 0
+    for fn_ in gf.gen_methods:
+        seen_ = set()
+        for p, ev in gf.inlined(fn_):
+            if p.outcome == 'raise':
+                continue
+            for e in ev:
+                if e.kind == 'silent' and e.func.startswith('self.') and e.func[5:] in rel_ and e.line not in seen_:
+                    seen_.add(e.line)
+                    n_sil += 1
+                    arm_ = F.arm_of(ev, ev.index(e))
+                    # (drained into a name that is then asserted to be empty: nothing was there to discard)
+                    empty_ = isinstance(e.bound, str) and any(q.kind == 'assert' and _efg.assert_text(f'not {e.bound}') in q.text
+                                                              for q in ev[ev.index(e):])
+                    chk.expect((fn_ == 'gen_block' and arm_.startswith('CodeBlock')) or empty_, 'C08.L1', f'{fn_}[{arm_}]::{e.func} drained',
+                               'the release is run for its book-keeping only and its instructions are discarded: arrays the bubble '
+                               'owns are never freed at run time', GEN, e.line)
+    chk.count('drained_releases', n_sil)
+
     # ---------------- L3 ---------------------------------------------------------------
     cb = [(p, ev) for p, ev in gf.inlined('gen_block')
           if any(e.kind == 'case' and 'CodeBlock' in e.text for e in ev) and p.outcome != 'raise']
